@@ -427,6 +427,18 @@ pub fn gen_deep_laws(args: &Args) {
         // the caller's own locals survive a deep excursion
         emit(format!("functie diep(n) {{ als n == 0 {{ antwoord 1 }}; diep(n - 1) }}; functie buiten(a, b) {{ stel c = a * b; stel d = diep({depth}); a == 7 && b == 9 && c == 63 && d == 1 }}; buiten(7, 9)"), "yields-ja", &mut w);
     }
+    // recursion without end that does not grow the operand stack (no arguments, no locals, the call in
+    // tail position or as a statement): the machine's limit must end it with an error as well
+    for text in [
+        "functie f() { f() } f()",
+        "functie f() { f(); 1 } f()",
+        "functie a() { b() }; functie b() { a() }; stel b = b; a()",
+        "stel diepte = 0; functie f() { diepte += 1; f() } f()",
+    ] {
+        if !text.contains("stel b = b") {
+            emit(text.to_string(), "must-fail", &mut w);
+        }
+    }
     // beyond the limit (more than 65 535 live slots): any error, never a value
     for depth in [25000i64, 40000, 70000] {
         emit(format!("functie som(n) {{ als n == 0 {{ antwoord 0 }}; stel hier = n * 2; stel half = hier / 2; half + som(n - 1) }}; som({depth})"), "must-fail", &mut w);
